@@ -249,11 +249,15 @@ pub fn input_name(n: u8) -> String {
         b[p] = b'A' + n % 26;
         String::from_utf8(b).unwrap_or_default()
     };
-    match style % 4 {
+    match style % 6 {
         0 => format!("v{n}"),
         1 => long(40),
         2 => long(70),
-        _ => format!("in put-\u{df}{n}"),
+        3 => format!("in put-\u{df}{n}"),
+        // names of different lengths in which the longer one sorts first as text ("in10" < "in2", "aa" < "b"),
+        // and names that are prefixes of each other: length-first and text-first orders disagree on them
+        4 => ["in10", "in2", "in1", "in100", "in3", "in20"][usize::from(n) % 6].to_string(),
+        _ => ["aa", "b", "a", "ab", "aaa", "ba"][usize::from(n) % 6].to_string(),
     }
 }
 
